@@ -35,6 +35,37 @@ var vhC03Tpl = []string{
 	"{% for k, v in sm %}{{ k }}={{ v }};{% endfor %}",
 	"{{ sm|keys|join(',') }}",
 	"{{ sm|first }}",
+	// from here on (vhC03Strict): maps handed to filters and functions as values and as arguments;
+	// a template may fail (unknown filter, unsupported argument) but then fails on every order
+	"{{ 'catalog category c'|replace({'cat': 'X', 'category': 'Y', 'c': 'Z'}) }}",
+	"{{ 'abcab'|replace(pm) }}",
+	"{{ m|last }}|{{ tm|last }}",
+	"{{ m|sort|join(',') }}|{{ tm|sort|join(',') }}",
+	"{{ m|reverse|join(',') }}",
+	"{{ m|slice(0, 2)|join(',') }}|{{ tm|slice(1)|join(',') }}",
+	"{{ max(tm) }}{{ min(tm) }}",
+	"{{ tm|json_encode }}|{{ im|json_encode }}",
+	"{{ m|url_encode }}",
+	"{% for r in tm|batch(2) %}{{ r|join(',') }};{% endfor %}",
+	"{{ cycle(m, 1) }}{{ cycle(tm, 0) }}",
+	"{{ m|column('q')|join(',') }}|{{ nested|column('x')|join(',') }}",
+	"{{ 'a: %s'|format(m) }}",
+	"{{ dump(m) }}",
+	"{% for k in m|keys|sort %}{{ k }}{% endfor %}{% for k in tm|keys|reverse %}{{ k }}{% endfor %}",
+	"{{ m|default('d') }}|{{ m|first|default('d') }}|{{ m|length }}",
+	"{% set r = m|merge(tm) %}{{ r|keys|join(',') }}|{{ r|join(',') }}",
+	"{% if m == m2 %}E{% endif %}{% if 'x' in m %}I{% endif %}{% if m %}T{% endif %}{{ m is iterable }}{{ tm is empty }}",
+	"{% for k, v in pm %}{{ loop.first }}{{ loop.last }}{{ loop.length }}{{ k }}{% endfor %}",
+}
+
+// index of the first template that is allowed to fail
+func vhC03Strict() int {
+	for i, t := range vhC03Tpl {
+		if len(t) > 12 && t[:12] == "{{ 'catalog " {
+			return i
+		}
+	}
+	return len(vhC03Tpl)
 }
 
 type vhKeyT string
@@ -79,14 +110,23 @@ func vhC03Ctx(order int, a, b, c string) map[string]interface{} {
 	} else {
 		bm[false], bm[true] = "y", "x"
 	}
-	return map[string]interface{}{"fm": fm, "am": am, "bm": bm, "sm": sm, "m": m, "tm": tm, "im": im, "m2": map[string]interface{}{"d": "4", "a": "0"},
+	return map[string]interface{}{"fm": fm, "am": am, "bm": bm, "sm": sm, "m": m, "tm": tm, "im": im, "m2": map[string]interface{}{"d": "4", "a": "0"}, "pm": vhC03Pm(order),
 		"nested": map[string]interface{}{"n2": map[string]interface{}{"y": 1, "x": 2}, "n1": map[string]interface{}{"q": 3, "p": 4}}}
+}
+
+// a map whose keys are prefixes of each other
+func vhC03Pm(order int) map[string]interface{} {
+	pm := map[string]interface{}{}
+	for _, k := range [][]string{{"a", "ab", "abc"}, {"abc", "ab", "a"}, {"ab", "abc", "a"}}[order%3] {
+		pm[k] = strconv.Itoa(len(k))
+	}
+	return pm
 }
 
 // vhC03Only keeps the context entries whose name occurs in the template source.
 func vhC03Only(ctx map[string]interface{}, src string) map[string]interface{} {
 	out := map[string]interface{}{}
-	for _, name := range []string{"fm", "am", "bm", "sm", "tm", "im", "m2", "nested", "m"} {
+	for _, name := range []string{"fm", "am", "bm", "sm", "tm", "im", "m2", "nested", "pm", "m"} {
 		found := false
 		for i := 0; i+len(name) <= len(src); i++ {
 			if src[i:i+len(name)] == name && (i+len(name) == len(src) || !(src[i+len(name)] >= 'a' && src[i+len(name)] <= 'z') && !(src[i+len(name)] >= '0' && src[i+len(name)] <= '9')) && (i == 0 || !(src[i-1] >= 'a' && src[i-1] <= 'z')) {
@@ -121,7 +161,9 @@ func VH_C03_MapOrder() {
 	o2, e2 := e.Render("t", ctx2)
 	symMapAdversary(false)
 	symCover("rendered")
-	symAssert(e1 == nil, "renders")
+	if t < vhC03Strict() {
+		symAssert(e1 == nil, "renders")
+	}
 	symAssert((e1 == nil) == (e2 == nil), "same-error")
 	symAssert(o1 == o2, "output-independent-of-map-order")
 }
